@@ -145,6 +145,14 @@ def gen_text_case(r, name, identical_p=0.3):
     if 'space_and_change' in muts and r.chance(0.7):
         opts['rstrip'] = True
         opts['lstrip'] = True
+    if 'space_digits_and_change' in muts and r.chance(0.7):
+        opts['rstrip'] = True
+        opts['lstrip'] = True
+        opts['ignore_patterns'] = [r.pick([r'\d+', r'\d{4}', r'(\d+)'])]
+        for k in ('remove_lines', 'preprocess'):
+            opts.pop(k, None)
+    if 'blank_tail' in muts and r.chance(0.7):
+        opts[r.pick(['rstrip', 'lstrip'])] = True
     if 'swap_and_change' in muts and r.chance(0.7):
         opts['max_permutation_cases'] = r.randint(1, 3)
     ref_text = gl.join_text(r, ref_lines)
@@ -1359,9 +1367,10 @@ def check_c15_pp(ctx, op, entry, opts, msg, a_text, e_text, pp):
                   '%s / %s' % (W.rel(pa), W.rel(pe)))
         return
     ctx.stats['checks']['post_processed_pairs_checked'] += 1
-    la = textcmp.split_lines(read_text_model(pa))
-    le = textcmp.split_lines(read_text_model(pe))
-    if la == le:
+    ta, te = read_text_model(pa), read_text_model(pe)
+    la = textcmp.split_lines(ta)
+    le = textcmp.split_lines(te)
+    if ta == te:
         violation(ctx, op, 'post-processed-pair-differs',
                   '%s/%s' % (entry, option_tag(opts)),
                   'assertion failed but post-processed files are identical')
@@ -1382,7 +1391,17 @@ def check_c15_pp(ctx, op, entry, opts, msg, a_text, e_text, pp):
             except ValueError:
                 pass
         return ls
-    ba, be = body(la), body(le)
+    # the writer joins the lines with newlines, so a final empty line and a
+    # final newline look alike in the file: take the reading whose line
+    # count is the model's
+    def reading(text, want_n):
+        ls = body(text.split('\n'))
+        for cand in (ls, ls[:-1] if ls and ls[-1] == '' else None,
+                     ls[:-2] if ls[-2:] == ['', ''] else None):
+            if cand is not None and len(cand) == want_n:
+                return cand
+        return body(textcmp.split_lines(text))
+    ba, be = reading(ta, info['n_actual']), reading(te, info['n_expected'])
     if len(ba) != len(be):
         violation(ctx, op, 'post-processed-positions',
                   '%s/%s/length' % (entry, option_tag(opts)),
